@@ -39,7 +39,8 @@ def cases(tier, rng):
     if tier == "quick":
         stride, nblk, nrand, per = 13, 4, 20, 45
     else:
-        stride, nblk, nrand, per = 2, 28, 160, 200
+        stride, nblk, nrand, per = 2, 28, 240, 220
+    out.append({"kind": "regression"})
     idx = list(range(int(rng.integers(stride)), n_fam, stride))
     blk = (len(idx) + nblk - 1) // nblk
     for b in range(nblk):
@@ -48,7 +49,6 @@ def cases(tier, rng):
             out.append({"kind": "family", "first": part[0], "stride": stride, "count": len(part)})
     for _ in range(nrand):
         out.append({"kind": "random", "n": per})
-    out.append({"kind": "regression"})
     return out
 
 
@@ -213,12 +213,7 @@ def _regression(fdtdx, rng, r):
 
     for gk in ("uniform", "nonuniform_b"):
         for consistent in (True, False):
-            shape = [9, 6, 4]
-            grid, non = G._family_grid(gk, shape)
-            objs = [{"name": n, "gshape": [2, 2, 2], "rshape": [None] * 3, "rpos": [None] * 3} for n in ("A", "B")]
-            pin = lambda n, own: {"k": "pos", "obj": n, "other": "vol", "axes": [0, 1, 2], "own": [own] * 3, "oth": [own] * 3, "margins": [0.0] * 3, "gmargins": [0] * 3}  # noqa: E731
-            # A's lower x face on B's lower x face: true only if both sit in the same corner
-            rel = {"k": "pos", "obj": "A", "other": "B", "axes": [0], "own": [-1.0], "oth": [-1.0], "margins": [0.0], "gmargins": [0]}
-            cons = [rel, pin("A", -1.0), pin("B", -1.0 if consistent else 1.0)]
-            system = {"shape": shape, "grid": grid, "nonuniform": non, "objects": objs, "constraints": cons}
+            system = G.pinned_pair_system(gk, consistent)
             compare_orders(fdtdx, system, rng, r, "reg", f"pinned-pair|{'consistent' if consistent else 'conflict'}", 6)
+    for conflict in (True, False):
+        compare_orders(fdtdx, G.rpos_conflict_system(True, conflict), rng, r, "reg", f"rpos|{'conflict' if conflict else 'consistent'}", 3)
